@@ -119,6 +119,7 @@ def ewidth(e):
   if k in ("zext", "sext", "trunc"): return e[2]
   if k == "cat": return sum(ewidth(x) for x in e[1])
   if k == "cast": return e[2]            # same-width BitsN( expr ) cast
+  if k == "vsl": return e[3]            # variable part-select x[ i : i+size ] (size 1: also the bit select x[i])
   if k == "csl": return e[3] - e[2]     # slice [lo:hi] of a call result ( concat(..)[lo:hi], sext(..)[lo:hi] )
   if k == "ite": return ewidth(e[2]) if ewidth(e[2]) is not None else ewidth(e[3])
   raise KeyError(k)
@@ -132,6 +133,7 @@ def expr_refs(e, out):
   elif k in ("bin", "cmp"): expr_refs(e[2], out); expr_refs(e[3], out)
   elif k in ("inv", "zext", "sext", "trunc", "csl", "cast"): expr_refs(e[1], out)
   elif k == "red": expr_refs(e[2], out)
+  elif k == "vsl": out.append(e[1]); expr_refs(e[2], out)
   elif k == "cat":
     for x in e[1]: expr_refs(x, out)
   elif k == "ite": expr_refs(e[1], out); expr_refs(e[2], out); expr_refs(e[3], out)
@@ -195,6 +197,7 @@ def subst_expr(e, env):
   if k in ("zext", "sext", "trunc"): return [k, subst_expr(e[1], env)] + list(e[2:])
   if k == "csl": return [k, subst_expr(e[1], env), e[2], e[3]]
   if k == "cast": return [k, subst_expr(e[1], env), e[2]]
+  if k == "vsl": return [k, concretize(e[1], env), subst_expr(e[2], env)] + list(e[3:])
   if k == "red": return [k, e[1], subst_expr(e[2], env)]
   if k == "cat": return [k, [subst_expr(x, env) for x in e[1]]]
   if k == "ite": return [k, subst_expr(e[1], env), subst_expr(e[2], env), subst_expr(e[3], env)]
@@ -239,6 +242,9 @@ def expr_text(e):
     if len(e) > 3 and e[3] == "kw": return f"{k}(value={expr_text(e[1])}, new_width={e[2]})"        # keyword arguments
     return f"{k}({expr_text(e[1])}, {e[2]})"
   if k == "csl": return f"{expr_text(e[1])}[{e[2]}:{e[3]}]"
+  if k == "vsl":
+    it = expr_text(e[2])
+    return f"{ref_text(e[1])}[{it}]" if e[4] == "bit" else f"{ref_text(e[1])}[{it}:{it}+{e[3]}]"
   if k == "cast": return f"Bits{e[2]}({expr_text(e[1])[1:-1] if expr_text(e[1]).startswith('(') and expr_text(e[1]).endswith(')') else expr_text(e[1])})"
   if k == "cat": return "concat(" + ", ".join(expr_text(x) for x in e[1]) + ")"
   if k == "ite": return f"({expr_text(e[2])} if {expr_text(e[1])} else {expr_text(e[3])})"
@@ -276,6 +282,7 @@ def ev(e, rd, env=None):
     return (a - (1 << w0) if a >> (w0 - 1) else a) & mask(e[2])
   if k == "trunc": return ev(e[1], rd, env) & mask(e[2])
   if k == "csl": return (ev(e[1], rd, env) >> e[2]) & mask(e[3] - e[2])
+  if k == "vsl": return (rd(e[1]) >> ev(e[2], rd, env)) & mask(e[3])
   if k == "cast": return ev(e[1], rd, env) & mask(e[2])
   if k == "cat":
     r = 0
@@ -673,9 +680,32 @@ class Gen:
     return rng.choice(cands)
 
   # -- expressions ---------------------------------------------------------------
+  def var_select(self, w, srcs):
+    """x[ i : i+w ] (w == 1: possibly x[i]) of a whole Bits signal x with a data-dependent position i = (E & K); K keeps
+    i+w inside x AND inside the index width (python computes the upper bound i+w in clog2(nbits) bits)"""
+    rng = self.rng
+    for (path, t) in srcs[:6]:
+      if not isinstance(t, int) or t < w + 1 or t > 256: continue
+      iw = (t - 1).bit_length()
+      lim = min(t, (1 << iw) - 1) - w              # largest legal position
+      if lim < 1: continue
+      K = (1 << rng.randrange(1, lim.bit_length() + 1)) - 1
+      while K > lim: K >>= 1
+      self._in_vsl = True
+      try: E = self._explicit(iw, list(srcs), 1)
+      finally: self._in_vsl = False
+      if E[0] == "c": continue
+      idx = ["bin", "and", E, ["c", K, None]]
+      form = "bit" if (w == 1 and rng.random() < 0.6) else "ps"
+      return ["vsl", self.root_ref(path, t), idx, w, form]
+    return None
+
   def leaf(self, w, srcs):
     rng = self.rng
     rng.shuffle(srcs)
+    if self.k.get("p_vsl") and not getattr(self, "_in_vsl", False) and rng.random() < self.k["p_vsl"]:
+      e = self.var_select(w, srcs)
+      if e is not None: return e
     for (path, t) in srcs[:6]:
       r = self.read_ref(path, t, want=w)
       if r is not None:
